@@ -729,7 +729,7 @@ def c11(run, scratch):
     system_programs(run, scratch, "torn", 6 if t else 5)
     ev = cache_trace(run, scratch, "Trace_Cache_parse", "parse", 120 if t else 30, SMALL_CORPUS[:1] if t else [], _c11_corrupt,
                      lambda e: e["t"] == "parse", workers=14 if t else 10)
-    for e in [x for x in ev if x["what"] == "edit"][:2] + [x for x in ev if x["what"] == "prefix"][-1:]:
+    for e in [x for x in ev if x.get("what") == "edit"][:2] + [x for x in ev if x.get("what") == "prefix"][-1:]:
         run.sample({"what": e["what"], "len": len(e["bytes"]), "header": e["bytes"][:24], "outcome": e["outcome"]})
     run.exhaustive = False
     run.assumptions += COMMON_ASSUME + ["buffers handed to parse are 8-byte aligned copies"]
